@@ -161,6 +161,19 @@ def prog_eval_in_eval(pkg, depth, via, spelling="dds.eval", two_modules=False):
     return p
 
 
+def prog_redefined(pkg, kind, order):
+    """The "redefine and extend" idiom: a function is defined, kept reachable under another name (_base_step = step) and
+    defined again under its own name; the second definition calls the first one and holds the offending call.  The
+    entry reaches the two definitions in the given order."""
+    offending = {"cycle": "    x1 = main()", "eval-in-eval": "    x1 = dds.eval(leaf)", "overlap": "    x1 = dds.keep(\"/rd/%s/a/b\", leaf)" % pkg}[kind]
+    first = "    y0 = _base_step()\n    y1 = step()" if order == "old-first" else "    y1 = step()\n    y0 = _base_step()"
+    text = (
+        "import dds\nfrom vp import vlog\n\n\ndef leaf():\n    vlog.hit('leaf')\n    return ('leaf', 1)\n\n\ndef step():\n    vlog.hit('step-old')\n    return ('old', dds.keep(\"/rd/%s/a\", leaf))\n\n\n"
+        "_base_step = step\n\n\ndef step():\n    vlog.hit('step-new')\n    x0 = _base_step()\n%s\n    return ('new', x0, x1)\n\n\ndef main():\n    vlog.hit('main')\n%s\n    return ('main', y0, y1)\n" % (pkg, offending, first)
+    )
+    return {"pkg": pkg, "modules": ["rd"], "_raw_files": {pkg + "/__init__.py": "# pkg\n", pkg + "/rd.py": text}, "_entry": ("rd", "main")}
+
+
 def control_program(pkg):
     p = gen.new_program(pkg)
     m0 = gen.add_module(p, "ok0")
@@ -175,6 +188,12 @@ STAGE_LISTS = [["analysis"], ["analysis", "store_inspect"], ["analysis", "store_
 
 
 def _step(p, style="eval", stages=None):
+    if p.get("_raw_files"):
+        # a program written out by hand (constructs the generator has no notation for)
+        ent = {"style": style, "module": p["pkg"] + "." + p["_entry"][0], "func": p["_entry"][1], "args_src": "()"}
+        if stages is not None:
+            ent["options"] = {"dds_stages": stages}
+        return {"write": p["_raw_files"], "how": "import", "modules": [p["pkg"] + "." + p["_entry"][0]], "entry": ent}
     f = p["fns"][p["entry"]]
     ent = {"style": style, "module": gen.modname(p, f["module"]), "func": f["name"], "args_src": "()"}
     if stages is not None:
@@ -321,6 +340,10 @@ def build_cases(tier, seed):
         add("cycle", "CIRCULAR_CALL", dotted(prog_cycle("y%d" % n[0], ["call"] * ln, two_modules=True)), {"edges": ["call"] * ln, "accepted": "modules-only", "modules": 2})
         # a cycle of plain calls through two modules that import each other inside the function bodies
         add("cycle", "CIRCULAR_CALL", localize(prog_cycle("y%d" % n[0], ["call"] * ln, two_modules=True), forms=True), {"edges": ["call"] * ln, "imports": "function-local", "modules": 2})
+    # ---- the offending call sits in the second definition of a function that was defined twice under one name
+    for kind, code in (("cycle", "CIRCULAR_CALL"), ("eval-in-eval", "EVAL_IN_EVAL"), ("overlap", "OVERLAPPING_PATH")):
+        for order in ("old-first", "new-first"):
+            add(kind, code, prog_redefined("rd%d" % n[0], kind, order), {"redefined": True, "reached": order, "adjacent": True})
     # ---- eval in eval
     for depth in range(0, 5):
         for via in ("call", "keep", "method", "property"):
@@ -331,7 +354,7 @@ def build_cases(tier, seed):
                 add("eval-in-eval", "EVAL_IN_EVAL", dotted(prog_eval_in_eval("v%d" % n[0], depth, via, two_modules=True)), {"depth": depth, "via": via, "accepted": "modules-only", "modules": 2})
     # the same ill-formed evaluations restricted to a prefix of the stages (dds_stages): still rejected, nothing runs
     extra = []
-    ill = [c for c in cases if c[2] is not None and "stages" not in c[4]]
+    ill = [c for c in cases if c[2] is not None and "stages" not in c[4] and not c[3].get("_raw_files")]
     for j, (cid, kind, expect, p, desc) in enumerate(ill):
         if tier == "quick" and (_hi((kind, repr(sorted(desc.items(), key=str)))) + seed) % 9 != 0 and not (kind != "overlap" and j % 3 == 0):
             continue
